@@ -6,16 +6,17 @@ package main
 
 import (
 	"bufio"
-	"math/big"
 	"encoding/json"
 	"flag"
 	"fmt"
+	"math/big"
 	"os"
 	"sort"
 	"strings"
 
 	"github.com/taurusgroup/multi-party-sig/pkg/ecdsa"
 	"github.com/taurusgroup/multi-party-sig/pkg/party"
+	"github.com/taurusgroup/multi-party-sig/pkg/pool"
 	"github.com/taurusgroup/multi-party-sig/pkg/protocol"
 	"github.com/taurusgroup/multi-party-sig/protocols/doerner"
 	"github.com/taurusgroup/multi-party-sig/protocols/frost"
@@ -36,27 +37,30 @@ var names = []party.ID{"a", "b", "c", "d", "e", "f"}
 
 // Scenario is one line of the input file.
 type Scenario struct {
-	ID     int               `json:"id"`
-	Kind   string            `json:"kind"` // equiv | fault | stop | honest
-	Proto  string            `json:"proto"`
-	N      int               `json:"n"`
-	T      int               `json:"t"`
-	Byz    string            `json:"byz"`
-	Round  int               `json:"round"`
-	B      bool              `json:"b"`
-	Groups map[string]string `json:"groups"`
-	To     string            `json:"to"`   // fault: recipient of the altered copy, or "all"
-	Hdr    string            `json:"hdr"`  // fault: header class ("" = content alteration)
-	Leaf   int               `json:"leaf"` // fault: ordinal of the leaf in the decoded content
-	Alt    string            `json:"alt"`
-	Sched  int               `json:"sched"`
-	Who    string            `json:"who"`   // stop: party
-	After  int               `json:"after"` // stop: number of deliveries before Stop
-	Cross  bool              `json:"cross"` // equiv: also deliver the other universe's later messages
-	Variant string           `json:"variant"` // presigncheat: offline | full | online
-	Rule   string            `json:"rule"`  // presigncheat: delta | gamma | x-chi | chi (offline, full); k | chi (online)
-	Diff   string            `json:"diff"`  // foreign: the one parameter in which the other session differs
-	From   string            `json:"from"`  // relabel: the real sender whose message is replayed under Byz's name
+	ID      int               `json:"id"`
+	Kind    string            `json:"kind"` // equiv | fault | stop | honest
+	Proto   string            `json:"proto"`
+	N       int               `json:"n"`
+	T       int               `json:"t"`
+	Byz     string            `json:"byz"`
+	Round   int               `json:"round"`
+	B       bool              `json:"b"`
+	Groups  map[string]string `json:"groups"`
+	To      string            `json:"to"`   // fault: recipient of the altered copy, or "all"
+	Hdr     string            `json:"hdr"`  // fault: header class ("" = content alteration)
+	Leaf    int               `json:"leaf"` // fault: ordinal of the leaf in the decoded content
+	Alt     string            `json:"alt"`
+	Sched   int               `json:"sched"`
+	Who     string            `json:"who"`     // stop: party
+	After   int               `json:"after"`   // stop: number of deliveries before Stop
+	Cross   bool              `json:"cross"`   // equiv: also deliver the other universe's later messages
+	Variant string            `json:"variant"` // presigncheat: offline | full | online
+	Rule    string            `json:"rule"`    // presigncheat: delta | gamma | x-chi | chi (offline, full); k | chi (online)
+	Stage   string            `json:"stage"`   // presigncheat: where PresignAlg.tla predicts the deviation is caught (abort1 | abort2 | sigma)
+	Coded   string            `json:"coded"`   // presigncheat: the same for the identification rounds as coded (SwapIndex = TRUE)
+	Pool    bool              `json:"pool"`    // run the handlers with a real worker pool (a panic in a worker kills the process)
+	Diff    string            `json:"diff"`    // foreign: the one parameter in which the other session differs
+	From    string            `json:"from"`    // relabel: the real sender whose message is replayed under Byz's name
 }
 
 type viol struct {
@@ -274,6 +278,10 @@ func run(sc Scenario, seed string) (outcome, []sim.Event) {
 
 func runOnce(sc Scenario, seed string) (outcome, []sim.Event, bool) {
 	su := getSetup(sc.Proto, sc.N, sc.T, seed)
+	if sc.Pool {
+		protos.Pool = pool.NewPool(3)
+		defer func() { protos.Pool.TearDown(); protos.Pool = nil }()
+	}
 	r := &runner{sc: sc, su: su, byz: party.ID(sc.Byz), rng: sim.NewRng(uint64(sc.Sched)*7919 + 17)}
 	r.out = outcome{ID: sc.ID, Applicable: true, Status: map[string]string{}}
 	for _, id := range su.ids {
@@ -877,6 +885,23 @@ func (r *runner) evalPointCheat(sess *protos.Session, label func(party.ID) strin
 	})
 }
 
+// presignStage names the step of CMP presigning / signing that produced an error.
+func presignStage(e string) string {
+	switch {
+	case strings.Contains(e, "abort1: detected culprit"):
+		return "abort1"
+	case strings.Contains(e, "abort2: detected culprit"):
+		return "abort2"
+	case strings.Contains(e, "signature failed to verify"):
+		return "sigma"
+	case strings.Contains(e, "round 7: failed to validate Delta MtA Nth proof"):
+		return "abort1-proofs"
+	case strings.Contains(e, "round 8: failed to validate Delta MtA Nth proof"):
+		return "abort2-proofs"
+	}
+	return "other"
+}
+
 // presignCheat: one presigner deviates at state level (its proofs pass); every honest signer must single it out.
 func (r *runner) presignCheat(label func(party.ID) string, seed string) {
 	e := r.e
@@ -927,6 +952,10 @@ func (r *runner) presignCheat(label func(party.ID) string, seed string) {
 		case "err":
 			if len(st.Culprits) != 1 || st.Culprits[0] != r.byz {
 				r.violate("C04", "cheater-not-identified", fmt.Sprintf("%s with culprits %v (%v); expected exactly [%s]", desc, st.Culprits, st.Err, r.byz), "")
+			}
+			// the stage at which the deviation is caught, against the prediction of PresignAlg.tla (as designed / as coded)
+			if got := presignStage(st.Err.Error()); r.sc.Stage != "" && got != r.sc.Stage && got != r.sc.Coded {
+				r.violate("C04", "caught-at-wrong-stage", fmt.Sprintf("%s at stage %q (%v); PresignAlg.tla predicts %q", desc, got, st.Err, r.sc.Stage), "")
 			}
 		}
 	}
